@@ -119,7 +119,7 @@ def r2_coordinate_shift(ctx):
             bad = [u(x) for x in body_walk(fi.node) if isinstance(x, ast.AugAssign) and isinstance(x.op, (ast.Add, ast.Sub))]
             bad += [u(x) for x in body_walk(fi.node) if isinstance(x, ast.BinOp) and isinstance(x.op, (ast.Add, ast.Sub)) and isinstance(x.right, ast.Constant)
                     and isinstance(x.left, ast.Call) and "get_field_by_number" in u(x.left.func)]
-            ctx.ob(fi.where, f"{b.qualname}.{mname} keeps coordinates as written (no +/-1 on parsed columns)", not bad, "; ".join(bad), key=f"C02-R2|{b.qualname}|{mname}")
+            ctx.ob(fi.where, f"{b.qualname}.{mname} keeps coordinates as written (no +/-1 on parsed columns)", not bad, "; ".join(bad), key=f"C02-R2|{b.qualname}|{mname}", definite=True)
     ctx.floor("overriding field getters examined for shifts", n, 6)
 
 
